@@ -156,7 +156,7 @@ macro_rules
         | exact ($h).inlineQ | exact ($h).locIngr | exact ($h).locCw | exact ($h).metaMap | exact ($h).frontMatter
         | exact ($h).metaLocs | exact ($h).servings | exact ($h).defineMode | exact ($h).duplicateMode
         | exact ($h).oldStyle | exact ($h).oldStyleUsed | exact ($h).diags | exact ($h).stepCounter
-        | exact ($h).block | skip)))
+        | exact ($h).block | rfl | skip)))
 
 theorem ARel.aerr (kind : String) {l' l : List Span} (h : l'.length = l.length) :
     ARel (α := α) uws (fun _ _ => True) (aerr kind l') (aerr kind l) :=
